@@ -15,7 +15,12 @@ func init() { register("C16", checkC16) }
 
 // jsonDefect returns "" if v is JSON data (nil, bool, finite float64, string,
 // non-nil []interface{}, non-nil map[string]interface{}, recursively).
-func jsonDefect(v interface{}, path string) string {
+func jsonDefect(v interface{}, path string) string { return jsonDefectD(v, path, 0) }
+
+func jsonDefectD(v interface{}, path string, depth int) string {
+	if depth > 500 {
+		return path + " is nested deeper than 500 levels (cyclic value?)"
+	}
 	switch x := v.(type) {
 	case nil, bool, string:
 		return ""
@@ -29,7 +34,7 @@ func jsonDefect(v interface{}, path string) string {
 			return path + " is a nil slice (serialises as null, not [])"
 		}
 		for i, e := range x {
-			if d := jsonDefect(e, fmt.Sprintf("%s[%d]", path, i)); d != "" {
+			if d := jsonDefectD(e, fmt.Sprintf("%s[%d]", path, i), depth+1); d != "" {
 				return d
 			}
 		}
@@ -39,7 +44,7 @@ func jsonDefect(v interface{}, path string) string {
 			return path + " is a nil map (serialises as null, not {})"
 		}
 		for k, e := range x {
-			if d := jsonDefect(e, path+"."+k); d != "" {
+			if d := jsonDefectD(e, path+"."+k, depth+1); d != "" {
 				return d
 			}
 		}
@@ -84,7 +89,8 @@ func checkC16(r *harness.Run) harness.Coverage {
 		w = 1
 	}
 	docs := univ.Values(1, 2, univ.Js(univ.A6...), []string{"a", "b"})
-	docs = append(docs, univ.Js(`[[],[[]],{}]`, `{"a":[1,2,3],"b":["a","b"]}`, `{"a":[{"a":1,"b":"x"},{"a":2,"b":"y"}],"b":{"a":{},"b":[]}}`, `[0.5,-3,1e10,1e-10]`, `{"a":"é😀","b":"\u0000\""}`)...)
+	docs = append(docs, univ.Js(`[[],[[]],{}]`, `{"a":[1,2,3],"b":["a","b"]}`, `{"a":[{"a":1,"b":"x"},{"a":2,"b":"y"}],"b":{"a":{},"b":[]}}`, `[0.5,-3,1e10,1e-10]`, `{"a":"é😀","b":"\u0000\""}`,
+		`{"a":"Infinity","b":"nan"}`, `["inf","-inf","NaN","+Inf","1e999","-1e999","1","x"]`, `{"a":["Infinity",1],"b":{"a":"-Infinity"}}`, `{"a":{},"b":[]}`, `{"a":[],"b":{}}`)...)
 	for _, part := range []struct {
 		f    *univ.Fragment
 		maxW int
